@@ -31,6 +31,8 @@ pub struct DeletionQuery {
     pub nodes: Vec<NodeDelete>,
     pub node_log: Vec<NodeDeletionEntry>,
     pub updated_nodes: Vec<Node>,
+    //modification dates of the updated_nodes before the deletion, to update the daily log
+    pub updated_nodes_old_mdate: Vec<i64>,
     pub edges: Vec<EdgeDelete>,
     pub edge_log: Vec<EdgeDeletionEntry>,
 }
@@ -46,6 +48,7 @@ impl DeletionQuery {
             nodes: Vec::new(),
             node_log: Vec::new(),
             updated_nodes: Vec::new(),
+            updated_nodes_old_mdate: Vec::new(),
             edges: Vec::new(),
             edge_log: Vec::new(),
         };
@@ -89,6 +92,7 @@ impl DeletionQuery {
                         }
                     }
                     let mut node = *node;
+                    deletion_query.updated_nodes_old_mdate.push(node.mdate);
                     node.mdate = date;
                     deletion_query.updated_nodes.push(node);
                 }
@@ -122,6 +126,15 @@ impl DeletionQuery {
     }
 
     pub fn update_daily_logs(&self, daily_log: &mut DailyMutations) {
+        for (i, node) in self.updated_nodes.iter().enumerate() {
+            //the source node of a deleted edge gets a new modification date: it leaves a day and enters another
+            if let Some(room_id) = &node.room_id {
+                if let Some(old_mdate) = self.updated_nodes_old_mdate.get(i) {
+                    daily_log.set_need_update(*room_id, &node._entity, *old_mdate);
+                }
+                daily_log.set_need_update(*room_id, &node._entity, node.mdate);
+            }
+        }
         for edg in &self.edge_log {
             daily_log.set_need_update(edg.room_id, &edg.src_entity, edg.deletion_date);
         }
